@@ -106,14 +106,14 @@ theorem groupsOfKeys_congr {keys : List String} {syms : List (String × Sym)}
 
 /-- the state a scope ends in (junk when the scope fails, which `build = .ok _` excludes) -/
 def stOf (reserved : List String) (inp : Input) (s : Option Nat) : St :=
-  match assignGroups ⟨reserved, [], []⟩ (groupsOf (scopeSyms inp s)) with
+  match scopeRun reserved (groupsOf (scopeSyms inp s)) with
   | .ok st => st
   | .error _ => default
 
 theorem runScopes_eq_map {reserved : List String} {inp : Input} :
     ∀ (ss : List (Option Nat)) {out : List (Option Nat × St)}, runScopes reserved inp ss = .ok out →
       out = ss.map (fun s => (s, stOf reserved inp s)) ∧
-      ∀ s, s ∈ ss → ∃ st, assignGroups ⟨reserved, [], []⟩ (groupsOf (scopeSyms inp s)) = .ok st := by
+      ∀ s, s ∈ ss → ∃ st, scopeRun reserved (groupsOf (scopeSyms inp s)) = .ok st := by
   intro ss
   induction ss with
   | nil => intro out h; simp [runScopes] at h; subst h; simp
@@ -139,7 +139,7 @@ theorem runScopes_eq_map {reserved : List String} {inp : Input} :
 theorem runScopesWith_eq_map {reserved : List String} {inp : Input} {keys : Option Nat → List String}
     (hkeys : ∀ s x, x ∈ keys s ↔ x ∈ (scopeSyms inp s).map (·.1)) :
     ∀ (ss : List (Option Nat)),
-      (∀ s, s ∈ ss → ∃ st, assignGroups ⟨reserved, [], []⟩ (groupsOf (scopeSyms inp s)) = .ok st) →
+      (∀ s, s ∈ ss → ∃ st, scopeRun reserved (groupsOf (scopeSyms inp s)) = .ok st) →
       runScopesWith reserved inp keys ss = .ok (ss.map (fun s => (s, stOf reserved inp s))) := by
   intro ss
   induction ss with
@@ -200,6 +200,11 @@ theorem hasDup_perm {l l' : List Sym} (h : l.Perm l') : hasDup l = hasDup l' := 
   · have := h.nodup_iff.mpr (hasDup_eq_false_iff.mp h2)
     rw [← hasDup_eq_false_iff, h1] at this; cases this
 
+theorem usedNames_perm (inp : Input) {l l' : List Named} (h : l.Perm l') :
+    (usedNames inp l).Perm (usedNames inp l') := by
+  unfold usedNames
+  exact h.filterMap _
+
 /-- permuting the list of finished scopes permutes the result (and changes nothing else) -/
 theorem finish_perm {reserved : List String} {inp : Input} {sc sc' : List (Option Nat × St)} (h : sc.Perm sc')
     {names : List Named} (hf : finish reserved inp sc = .ok names) :
@@ -208,12 +213,13 @@ theorem finish_perm {reserved : List String} {inp : Input} {sc sc' : List (Optio
   simp only at hf ⊢
   have hg := h.flatMap_right (fun p : Option Nat × St => p.2.out.map fun q => (⟨q.1, p.1, q.2⟩ : Named))
   have hgen := h.flatMap_right (fun p : Option Nat × St => p.2.gen)
+  have hua := List.Perm.append (List.Perm.append (List.Perm.refl reserved) hgen) (usedNames_perm inp hg)
   rw [← hasDup_perm (hg.map (·.sym))]
   split at hf
   · cases hf
   · rename_i hd
     rw [if_neg hd]
-    rw [← assignLocals_perm inp.locals (List.Perm.append (List.Perm.refl reserved) hgen)]
+    rw [← assignLocals_perm inp.locals hua]
     split at hf
     · cases hf
     · rename_i ls hl
@@ -223,7 +229,7 @@ theorem finish_perm {reserved : List String} {inp : Input} {sc sc' : List (Optio
 theorem runScopesWith_ok {reserved : List String} {inp : Input} {keys : Option Nat → List String}
     (hkeys : ∀ s x, x ∈ keys s ↔ x ∈ (scopeSyms inp s).map (·.1)) :
     ∀ (ss : List (Option Nat)) {out : List (Option Nat × St)}, runScopesWith reserved inp keys ss = .ok out →
-      ∀ s, s ∈ ss → ∃ st, assignGroups ⟨reserved, [], []⟩ (groupsOf (scopeSyms inp s)) = .ok st := by
+      ∀ s, s ∈ ss → ∃ st, scopeRun reserved (groupsOf (scopeSyms inp s)) = .ok st := by
   intro ss
   induction ss with
   | nil => intro out _ s hs; simp at hs
@@ -276,7 +282,7 @@ theorem buildWith_perm {reserved : List String} {inp : Input}
       have hsc1 := runScopesWith_eq_map (reserved := reserved) hk1 o1 hok
       rw [hsc] at hsc1
       cases hsc1
-      have hok2 : ∀ s, s ∈ o2 → ∃ st, assignGroups ⟨reserved, [], []⟩ (groupsOf (scopeSyms inp s)) = .ok st :=
+      have hok2 : ∀ s, s ∈ o2 → ∃ st, scopeRun reserved (groupsOf (scopeSyms inp s)) = .ok st :=
         fun s hs => hok s (ho.mem_iff.mpr hs)
       rw [runScopesWith_eq_map (reserved := reserved) hk2 o2 hok2]
       simp only
